@@ -40,21 +40,25 @@ func runC33(c *an.Ctx) {
 		return n, w
 	}
 	// (a) threshold
-	thr := &an.Guard{Name: "3*listed < 2*peers", FailValue: an.ATrue, MatchValue: func(v ssa.Value) bool {
-		b, ok := v.(*ssa.BinOp)
-		if !ok || b.Op != token.LSS {
-			return false
+	// 3*listed < 2*peers, in any spelling (mirrored, negated, factors on either side of the product)
+	mulBy := func(v ssa.Value, k string) ssa.Value {
+		m, ok := v.(*ssa.BinOp)
+		if !ok || m.Op != token.MUL {
+			return nil
 		}
-		l, okl := b.X.(*ssa.BinOp)
-		r, okr := b.Y.(*ssa.BinOp)
-		if !okl || !okr || l.Op != token.MUL || r.Op != token.MUL {
-			return false
+		if isConstVal(k)(m.Y) {
+			return m.X
 		}
-		lk, _ := l.Y.(*ssa.Const)
-		rk, _ := r.Y.(*ssa.Const)
-		return lk != nil && rk != nil && lk.Value != nil && rk.Value != nil && lk.Value.String() == "3" && rk.Value.String() == "2"
-	}}
-	n, w := success([]*an.Guard{thr})
+		if isConstVal(k)(m.X) {
+			return m.Y
+		}
+		return nil
+	}
+	isListed3 := func(v ssa.Value) bool { return mulBy(v, "3") != nil }
+	isPeers2 := func(v ssa.Value) bool { return mulBy(v, "2") != nil }
+	thrMatch := func(v ssa.Value) bool { m, _ := relMatch(v, token.LSS, isListed3, isPeers2); return m }
+	thrs := relGuards("3*listed < 2*peers", token.LSS, isListed3, isPeers2)
+	n, w := success(thrs)
 	c.Check(n == 1 && w == "", "guard|VerifyHeader|two-thirds", "a header is accepted only if the listed bookkeepers number at least two thirds of the consensus peer set", c.P.Rel(fn.Pos()), fmt.Sprintf("%d threshold comparisons; %s", n, w))
 	// the counted list and peer set
 	okSubj := false
@@ -78,20 +82,26 @@ func runC33(c *an.Ctx) {
 		return true
 	}
 	hdr := fn.Params[1].Name()
-	for _, v := range findAll(thr.MatchValue) {
+	for _, v := range findAll(thrMatch) {
 		b := v.(*ssa.BinOp)
-		lenOf := func(x ssa.Value) string {
-			m, ok := x.(*ssa.BinOp)
-			if !ok {
-				return ""
-			}
-			k, isC := m.X.(*ssa.Call)
-			if !isC || len(k.Call.Args) != 1 {
-				return ""
-			}
-			return an.AccessPathIn(fn, k.Call.Args[0])
+		listed, peers := mulBy(b.X, "3"), mulBy(b.Y, "2")
+		if listed == nil || peers == nil {
+			listed, peers = mulBy(b.Y, "3"), mulBy(b.X, "2")
 		}
-		if pk, isC := b.Y.(*ssa.BinOp).X.(*ssa.Call); isC && len(pk.Call.Args) == 1 && lenOf(b.X) == hdr+".Bookkeepers" && derefField(pk.Call.Args[0], "PeerMap") {
+		lenArg := func(x ssa.Value) ssa.Value {
+			if cv, isCv := x.(*ssa.Convert); isCv {
+				x = cv.X
+			}
+			k, isC := x.(*ssa.Call)
+			if !isC || len(k.Call.Args) != 1 {
+				return nil
+			}
+			if bi, isB := k.Call.Value.(*ssa.Builtin); !isB || bi.Name() != "len" {
+				return nil
+			}
+			return k.Call.Args[0]
+		}
+		if la, pa := lenArg(listed), lenArg(peers); la != nil && pa != nil && an.AccessPathIn(fn, la) == hdr+".Bookkeepers" && derefField(pa, "PeerMap") {
 			okSubj = true
 		}
 	}
@@ -129,7 +139,7 @@ func runC33(c *an.Ctx) {
 			return false
 		}
 		call, isC := l.Index.(*ssa.Call)
-		return isC && call.Call.StaticCallee() != nil && call.Call.StaticCallee().Name() == "PubkeyID"
+		return isC && call.Call.StaticCallee() != nil && (call.Call.StaticCallee().Name() == "PubkeyID" || call.Call.StaticCallee().Name() == "PubKeyToHex")
 	}}
 	if len(findAll(seen.MatchValue)) == 0 {
 		c.Violate("distinct|VerifyHeader|no-repeated-bookkeeper", "listing the same peer several times does not count extra: a repeated key aborts verification (or the threshold counts a set keyed by key id)", c.P.Rel(fn.Pos()),
